@@ -568,7 +568,29 @@ ASTNode *PrimaryExpressionParser::parsePrimary() {
             RecursiveLexer type_check_lexer = parser_->lexer_;
             Token type_check_token = parser_->current_token_;
 
+            // "( identifier ..." is a cast only if the identifier names a type;
+            // otherwise it is a parenthesised expression: (x) - 1, (v[1]) - 1
+            bool may_be_type = true;
+            if (parser_->check(TokenType::TOK_IDENTIFIER)) {
+                const std::string &id = parser_->current_token_.value;
+                may_be_type = parser_->typedef_map_.count(id) ||
+                              parser_->struct_definitions_.count(id) ||
+                              parser_->enum_definitions_.count(id) ||
+                              parser_->union_definitions_.count(id) ||
+                              parser_->interface_definitions_.count(id);
+                for (const auto &params : parser_->type_parameter_stack_) {
+                    for (const auto &p : params) {
+                        if (p == id) {
+                            may_be_type = true;
+                        }
+                    }
+                }
+            }
+
             try {
+                if (!may_be_type) {
+                    throw std::runtime_error("not a type");
+                }
                 std::string type_str = parser_->parseType();
                 // 次が ')' ならキャスト
                 if (parser_->check(TokenType::TOK_RPAREN)) {
